@@ -51,7 +51,7 @@ def alphabet(tier, depth):
     for n in sorted(set(names + ['B'])):
         ops.append(('rm', n))
         ops.append(('rm-nostop', n))
-    for n in ('a', 'A', 'b'):
+    for n in ('a', 'A', 'b', ''):           # the empty name names no watcher - it does not mean "all of them"
         ops.append(('start', n))
         ops.append(('stop', n))
     for f in (FILES if depth < 4 else ('F0', 'Fa', 'FA')):
@@ -204,7 +204,7 @@ def run_seq(r, case):
                 accepted_change = accepted_change or rq.ok()
                 lenient = bool(by_command & set(ref))
             elif op in ('start', 'stop'):
-                rq = w.request(op, name=arg, match='simple')
+                rq = w.request(op, name=arg, **({'match': 'simple'} if arg else {}))
                 r.check('C15.case_routing', rq.ok() == (arg.lower() in ref),
                         lambda: desc() + ': %s %r answered %r, existing %s' % (op, arg, rq.reply(), sorted(ref.values())),
                         'commands.base._get_watcher', case, fp='routing', nontrivial=arg.lower() in ref)
